@@ -105,7 +105,7 @@ func (c *components) endToEnd(pc podCase) *e2eOutcome {
 	var cr cycleRes
 	select {
 	case cr = <-ch:
-	case <-time.After(60 * time.Second):
+	case <-time.After(10 * time.Minute): // generous: machine load must never look like a hang
 		e.Hung = true
 		return e
 	}
